@@ -420,6 +420,7 @@ func runC14(c *hc.Ctx) error {
 	c.Sum.Partial = "float clause: the ratio condition is the binary64 test the code performs; its meaning for the exact quotient of the two float64 cell sizes is proved with a slack of 2^-50 (C14_ratio_exact: within [1.99 - 2^-50, 2.01 + 2^-50]); validate_total carries the level bound d + log2(tile width) + 4 < 64 (every built-in set satisfies it; a 60-level set does not: C14_validate_total_level_bound_needed)"
 	c.Sum.TrustedBase = []string{
 		"float64 division and comparison in IsQuadTree modelled bit-exactly through f64 (round to nearest even of the exact quotient of the two binary64 values)",
+		"tie G2: the body of pointindex.IsQuadTree is regenerated statement by statement into gen/QuadTreeGen.v and proved equal to the model's isQuadTree for every record (C14_source_tie_isQuadTree); kept as model functions after an AST shape check: maps.Keys+slices.Sort+range+lookup = sorted_matrices, strconv.Atoi = parse_int, float64 division + mathhelp.FBetweenInc (body checked) = ratio_ok, != on [2]float64 / CornerOfOrigin = point_feqb / corner_eqb, fields of tms20.TileMatrix (types checked) = projections of the record (Tms/GoTms.v)",
 		"uint(math.Log2(float64(tileWidth))) modelled as floor(log2) (exact for tile widths below 2^47); uint(-Inf) = 2^63 and 1<<n = 0 for n >= 64 as compiled for amd64",
 		"main.validateTileMatrixSet is in package main: its call order is tied by the generated gen_validate_calls, by running the built binary on the built-in sets, and by running it on perturbed sets written to a file through the add-only hook /repo/verif_validate.go (build tag verif: load with tms20.LoadJSONTileMatrixSet, call validateTileMatrixSet, print the verdict); for the perturbed values that are not sampled for the hook the harness calls IsQuadTree, slices.Max, DeviationStats in that order itself",
 	}
